@@ -87,9 +87,7 @@ class UAIReader(object):
             )
             grammar += function_grammar
 
-        floatnumber = Combine(
-            Word(nums) + Optional(Literal(".") + Optional(Word(nums)))
-        )
+        floatnumber = Regex(r"[+-]?(\d+(\.\d*)?|\.\d+)([eE][+-]?\d+)?")
         for function in range(0, self.no_functions):
             no_values_grammar = Word(nums).setResultsName(
                 "fun_no_values_" + str(function)
